@@ -399,6 +399,20 @@ pub fn plan_c11(thorough: bool) -> Plan {
         for (ops, d) in out {
             cases.push(case(seed, uni.clone(), &cfg, "all", ops, d, true));
         }
+        // rollback history of committed chains: ancestor deletes / rewrites an on-disk key, the
+        // descendant writes it again; committed in order; rolled back one by one
+        for (a, b) in [(vec![del(0)], vec![w(0, 7)]), (vec![del(0), del(1)], vec![json!([0, "rw", 7])]), (vec![w(0, 1333)], vec![del(0)])] {
+            for tail in [vec![json!({"rb": 1}), json!({"rb": 1})], vec![json!({"rb": 2})]] {
+                let mut ops = vec![
+                    json!({"ov": {"id": 0, "on": [], "b": a}}),
+                    json!({"ov": {"id": 1, "on": [0], "b": b}}),
+                    json!({"ovc": 0}),
+                    json!({"ovc": 1}),
+                ];
+                ops.extend(tail);
+                cases.push(case(seed, uni.clone(), &cfg, "all", ops, 5, true));
+            }
+        }
         // explicit longer sequences: a parent whose commit is rejected (or which is dropped)
         // while a child is live, then a session / commit on the child alone
         let b0 = batches[0].clone();
@@ -632,7 +646,17 @@ pub fn plan_c13(thorough: bool) -> Plan {
                     *o = json!({"reopen": cv});
                 }
             }
-            let _ = ci;
+            if ci == 0 {
+                // a reopen that passes another hashtable size and seed (must be ignored), then
+                // the rest of the history and the final reopen
+                let mut o2 = ops.clone();
+                for o in o2.iter_mut() {
+                    if o.get("reopen").is_some() {
+                        *o = json!({"reopen": {"buckets": 1000, "seed": 99}});
+                    }
+                }
+                cases.push(case(seed, uni.clone(), &cfg, "all", o2, 1, true));
+            }
             cases.push(case(seed, uni.clone(), &cfg, "all", ops, ndev.min(2), true));
         }
     }
